@@ -21,9 +21,12 @@ MAXLEN = {"quick": 200, "thorough": 2000}
 CORR_HEADER = ("From Coq Require Import ZArith List Bool.\n"
                "From ACN Require Import Base.Num Model.Events.\nImport ListNotations.\n"
                "Open Scope Z_scope.\n")
-CHECK_FN = "check_c11"
+CHECK_FN = "check_c11m"
 SHARD = 25
-RULE = ("random op sequences (<=200 ops quick, <=2000 thorough) over EventQueue(events)/add_event/add_events/"
+NQ_CHOICES = [1, 1, 2, 2, 2, 3, 3]
+RULE = ("scenarios of 1-3 EventQueue instances in one process with interleaved ops; every list returned by "
+        "get_current_events is held and re-read after every later op and at the end; clobber steps mutate returned "
+        "lists; random op sequences (<=200 ops quick, <=2000 thorough) over EventQueue(events)/add_event/add_events/"
         "get_event/get_current_events(t)/len/empty/get_last_timestamp/to_json+from_json, generated while "
         "running the real queue so that t and re-pushed events are chosen from the pending set; timestamps "
         "from a per-case range in {1,3,8,40,1000} (ties; 15% of the cases also negative), all three event classes, occasional re-push of a "
@@ -92,6 +95,7 @@ class Runner:
         evs = [self._obj(t) for t in (init or [])]
         self.q = EventQueue(evs) if init is not None else EventQueue()
         self.results = []
+        self.last_raw = None    # the object returned by the last non-JSON op (for held-list tracking)
 
     def _obj(self, triple, twin=False):
         ts, kind, vid = triple
@@ -128,6 +132,9 @@ class Runner:
         if k == "get":
             return ["ev"] + _ev_obs(r) if hasattr(r, "precedence") else ["value", repr(r)]
         if k == "cur":
+            if isinstance(r, list) and any(isinstance(e, _Junk) for e in r):
+                return ["value", "a list that contains what a caller had put into a previously returned list "
+                                 "(returned lists are not fresh)"]
             if isinstance(r, list) and all(hasattr(e, "precedence") for e in r):
                 return ["evs", [_ev_obs(e) for e in r]]
             return ["value", repr(r)]
@@ -141,6 +148,7 @@ class Runner:
 
     def apply(self, op):
         k = op[0]
+        self.last_raw = None
         if k == "json":
             try:
                 s = self.q.to_json()
@@ -163,6 +171,7 @@ class Runner:
         except Exception as ex:  # noqa
             res = ["exc", type(ex).__name__]
         else:
+            self.last_raw = r
             try:
                 res = self._obs(k, r)
             except Exception as ex:  # noqa
@@ -186,11 +195,98 @@ class Runner:
             return dict(array=[[None, None, BADP, -1, type(ex).__name__]], timestep=None)
 
 
-def run_impl(init, ops):
-    r = Runner(init)
-    for op in ops:
-        r.apply(op)
-    return dict(results=r.results, final=r.final())
+class _Junk:
+    """what a careless caller appends to a list it was handed"""
+
+
+def _list_obs(lst):
+    return [_ev_obs(e) if hasattr(e, "precedence") else ["junk", type(e).__name__] for e in lst]
+
+
+class Multi:
+    """Several EventQueue instances in one process; ops are (queue index, op).  Keeps every list
+    returned by get_current_events and re-reads all of them after every later op."""
+
+    def __init__(self, inits):
+        self.rs = [Runner(i) for i in inits]
+        self.results = []
+        self.held = []          # dict(idx, qi, lst, ids, rec, live)
+        self.changes = []       # a held list that no longer holds what it held when returned
+        self.clobbered = []     # lists the "caller" has trashed (our junk is removed again in finish)
+
+    def recheck(self, now):
+        for h in self.held:
+            if not h["live"]:
+                continue
+            try:
+                same = tuple(map(id, h["lst"])) == h["ids"]
+            except Exception:  # noqa
+                same = False
+            if not same:
+                h["live"] = False
+                try:
+                    cur = _list_obs(h["lst"])
+                except Exception as ex:  # noqa
+                    cur = ["unreadable", type(ex).__name__]
+                shared = [g["idx"] for g in self.held if g is not h and g["lst"] is h["lst"]]
+                self.changes.append(dict(op=h["idx"], queue=h["qi"], after_op=now, recorded=h["rec"], now=cur,
+                                         same_object_as_result_of_ops=shared))
+
+    def apply(self, qi, op):
+        idx = len(self.results)
+        if op[0] == "clobber":
+            # the caller mutates every list it was handed by queue qi so far
+            for h in self.held:
+                if h["qi"] == qi and h["live"]:
+                    h["live"] = False
+                    try:
+                        self.clobbered.append(h["lst"])
+                        del h["lst"][:]
+                        h["lst"].append(_Junk())
+                    except Exception:  # noqa
+                        pass
+            res = ["clobber"]
+        else:
+            r = self.rs[qi]
+            res = r.apply(op)
+            if op[0] == "cur" and isinstance(r.last_raw, list) and res[0] == "evs":
+                self.held.append(dict(idx=idx, qi=qi, lst=r.last_raw, ids=tuple(map(id, r.last_raw)),
+                                      rec=res[1], live=True))
+            r.last_raw = None
+        self.results.append(res)
+        self.recheck(idx)
+        return res
+
+    def finish(self):
+        """end of the sequence: everything still held was re-read after the last op (recheck); now the
+        caller trashes all the lists it still holds, and only then are the queues' arrays observed"""
+        self.recheck(len(self.results))
+        for qi in range(len(self.rs)):
+            for h in self.held:
+                if h["qi"] == qi and h["live"]:
+                    h["live"] = False
+                    try:
+                        self.clobbered.append(h["lst"])
+                        del h["lst"][:]
+                        h["lst"].append(_Junk())
+                    except Exception:  # noqa
+                        pass
+        out = dict(results=self.results, finals=[r.final() for r in self.rs], changes=self.changes)
+        # take our junk out again, so that a scenario never depends on what an earlier scenario of this
+        # process left in a list that the implementation (wrongly) shares between calls
+        for lst in self.clobbered:
+            try:
+                lst[:] = [x for x in lst if not isinstance(x, _Junk)]
+            except Exception:  # noqa
+                pass
+        return out
+
+
+def run_impl(inits, ops):
+    m = Multi(inits)
+    for qi, op in ops:
+        m.apply(qi, op)
+    return m.finish()
 
 
 # ---------------------------------------------------------------------------------------------
@@ -251,47 +347,60 @@ def res_coq(r):
     return "RJson None"                   # unexpected exception / value: forces a mismatch
 
 
-def case_coq(init, ops, impl):
-    fin = impl["final"]
-    return ("{| c_init := %s;\n   c_ops := %s;\n   i_results := %s;\n   i_final := %s; i_timestep := %s |}" % (
-        coq_list([_item(t) for t in (init or [])]),
-        coq_list([op_coq(o) for o in ops]),
-        coq_list([res_coq(r) for r in impl["results"]]),
-        _arr_raw(fin["array"]), z(fin["timestep"] if isinstance(fin["timestep"], int) else BADP)))
+def case_coq(inits, ops, impl):
+    changed = {c["op"] for c in impl["changes"]}
+    real = [(i, qi, op) for i, (qi, op) in enumerate(ops) if op[0] != "clobber"]     # clobber has no model counterpart
+    res = []
+    for i, qi, op in real:
+        # a returned list that later stopped holding what it held is not representable (model values are immutable)
+        res.append("RJson None" if i in changed else res_coq(impl["results"][i]))
+    fins = []
+    for fin in impl["finals"]:
+        fins.append("(%s, %s)" % (_arr_raw(fin["array"]), z(fin["timestep"] if isinstance(fin["timestep"], int) else BADP)))
+    return ("{| m_inits := %s;\n   m_ops := %s;\n   mi_results := %s;\n   mi_finals := %s |}" % (
+        coq_list([coq_list([_item(t) for t in (init or [])]) for init in inits]),
+        coq_list(["(%d%%nat, %s)" % (qi, op_coq(op)) for _, qi, op in real]),
+        coq_list(res), coq_list(fins)))
 
 
 # ---------------------------------------------------------------------------------------------
-# generator (interleaved with the real queue so that choices depend on the pending set)
+# generator (interleaved with the real queues so that choices depend on the pending sets)
 # ---------------------------------------------------------------------------------------------
-PROFILES = ["mixed", "fill_drain", "simulator", "ties", "churn", "json_heavy", "tiny"]
+PROFILES = ["mixed", "fill_drain", "simulator", "ties", "churn", "json_heavy", "tiny", "hold"]
+WEIGHTS = dict(
+    mixed=dict(add=5, addmany=1, get=3, cur=2, len=1, empty=1, last=1, json=0.3, repush=0.3, clobber=0.2),
+    fill_drain=dict(add=6, addmany=2, get=0.2, cur=0.2, len=0.3, empty=0.3, last=0.3, json=0.1, repush=0.2, clobber=0.1),
+    simulator=dict(add=2, addmany=0.3, get=0, cur=6, len=0.3, empty=1, last=1, json=0.2, repush=0, clobber=0.2),
+    ties=dict(add=5, addmany=1, get=4, cur=1, len=0.5, empty=0.5, last=0.5, json=0.3, repush=0.5, clobber=0.1),
+    churn=dict(add=4, addmany=0, get=4, cur=0.5, len=0.2, empty=0.2, last=0.2, json=0.1, repush=0.2, clobber=0.1),
+    json_heavy=dict(add=4, addmany=1, get=2, cur=1, len=0.5, empty=0.5, last=0.5, json=2, repush=0.3, clobber=0.2),
+    tiny=dict(add=2, addmany=1, get=3, cur=2, len=1, empty=1, last=1, json=1, repush=0.3, clobber=0.5),
+    # many retrievals whose results stay held while other queues / later periods are retrieved
+    hold=dict(add=4, addmany=1, get=0.5, cur=5, len=0.3, empty=0.3, last=0.3, json=0.2, repush=0.1, clobber=0.05))
 
 
-def gen_one(rng, maxlen, profile=None):
-    profile = profile or rng.choice(PROFILES)
-    span = rng.choice([1, 3, 8, 40, 1000]) if profile != "ties" else rng.choice([1, 2])
-    n = rng.randint(1, maxlen) if profile != "tiny" else rng.randint(0, 6)
-    if rng.random() < 0.5:
-        n = min(n, max(8, maxlen // 4))
-    nid = [0]
-    neg = rng.random() < 0.15          # some cases use negative timestamps as well
+class QGen:
+    """op generator for one queue of a scenario (tracks what is pending from the observed results)"""
 
-    def fresh(lo=0):
-        vid = nid[0]
-        nid[0] += 1
-        ts = lo + rng.randint(0, span) - (3 if neg and rng.random() < 0.3 else 0)
+    def __init__(self, rng, profile, span, neg, nid, init):
+        self.rng, self.profile, self.span, self.neg, self.nid = rng, profile, span, neg, nid
+        self.pending = {}
+        for t in (init or []):
+            self.pending[t[2]] = t
+        self.clock = 0
+        self.drain = False
+        self.names = list(WEIGHTS[profile])
+        self.weights = [WEIGHTS[profile][k] for k in self.names]
+
+    def fresh(self, lo=0):
+        rng = self.rng
+        vid = self.nid[0]
+        self.nid[0] += 1
+        ts = lo + rng.randint(0, self.span) - (3 if self.neg and rng.random() < 0.3 else 0)
         return [ts, rng.choice(KINDS), vid]
 
-    init = None
-    if rng.random() < 0.6:
-        init = [fresh() for _ in range(rng.choice([0, 1, 2, 5, 12, 30]))]
-    run = Runner(init)
-    ops = []
-    pending = {}          # vid -> triple (tracked from observed results)
-    for t in (init or []):
-        pending[t[2]] = t
-    clock = [0]
-
-    def note(op, res):
+    def note(self, op, res):
+        pending = self.pending
         if op[0] == "add":
             pending[op[3]] = op[1:4]
         elif op[0] == "addmany":
@@ -303,185 +412,231 @@ def gen_one(rng, maxlen, profile=None):
             for o in res[1]:
                 pending.pop(o[2], None)
 
-    w = dict(mixed=dict(add=5, addmany=1, get=3, cur=2, len=1, empty=1, last=1, json=0.3, repush=0.3),
-             fill_drain=dict(add=6, addmany=2, get=0.2, cur=0.2, len=0.3, empty=0.3, last=0.3, json=0.1, repush=0.2),
-             simulator=dict(add=2, addmany=0.3, get=0, cur=6, len=0.3, empty=1, last=1, json=0.2, repush=0),
-             ties=dict(add=5, addmany=1, get=4, cur=1, len=0.5, empty=0.5, last=0.5, json=0.3, repush=0.5),
-             churn=dict(add=4, addmany=0, get=4, cur=0.5, len=0.2, empty=0.2, last=0.2, json=0.1, repush=0.2),
-             json_heavy=dict(add=4, addmany=1, get=2, cur=1, len=0.5, empty=0.5, last=0.5, json=2, repush=0.3),
-             tiny=dict(add=2, addmany=1, get=3, cur=2, len=1, empty=1, last=1, json=1, repush=0.3))[profile]
-    names = list(w)
-    weights = [w[k] for k in names]
-    drain = False
-    for i in range(n):
-        if profile == "fill_drain" and i >= n * 0.55:
-            drain = True
-        k = rng.choices(names, weights)[0]
-        if drain and k in ("add", "addmany", "repush") and rng.random() < 0.9:
+    def next_op(self):
+        rng, span, profile, pending = self.rng, self.span, self.profile, self.pending
+        k = rng.choices(self.names, self.weights)[0]
+        if self.drain and k in ("add", "addmany", "repush") and rng.random() < 0.9:
             k = rng.choice(["get", "get", "get", "cur"])
-        lo = clock[0] if profile == "simulator" else 0
+        lo = self.clock if profile == "simulator" else 0
         if k == "add":
-            op = ["add"] + fresh(lo)
-        elif k == "addmany":
-            op = ["addmany", [fresh(lo) for _ in range(rng.choice([0, 1, 2, 3, 8]))]]
-        elif k == "repush":
+            return ["add"] + self.fresh(lo)
+        if k == "addmany":
+            return ["addmany", [self.fresh(lo) for _ in range(rng.choice([0, 1, 2, 3, 8]))]]
+        if k == "repush":
             if not pending:
-                continue
-            op = ["add"] + list(rng.choice(sorted(pending.values(), key=lambda t: t[2])))
-        elif k == "cur":
+                return None
+            return ["add"] + list(rng.choice(sorted(pending.values(), key=lambda t: t[2])))
+        if k == "cur":
             tss = sorted({t[0] for t in pending.values()})
             if profile == "simulator":
-                clock[0] += rng.choice([0, 1, 1, 1, 2, span])
-                t = clock[0]
+                self.clock += rng.choice([0, 1, 1, 1, 2, span])
+                t = self.clock
+            elif profile == "hold" and tss and rng.random() < 0.7:
+                t = tss[0]                     # period by period: many small results to hold
             elif tss and rng.random() < 0.8:
                 t = rng.choice(tss) + rng.choice([0, 0, 0, -1, 1])
                 if rng.random() < 0.15:
                     t = rng.choice([tss[0] - 1, tss[-1], tss[-1] + 1])
             else:
                 t = rng.randint(-1, span + 1)
-            op = ["cur", t]
-        else:
-            op = [k]
-        res = run.apply(op)
-        ops.append(op)
-        note(op, res)
+            return ["cur", t]
+        return [k]
+
+
+def gen_one(rng, maxlen, profile=None, nq=None):
+    profile = profile or rng.choice(PROFILES)
+    nq = nq or rng.choice(NQ_CHOICES)
+    span = rng.choice([1, 3, 8, 40, 1000]) if profile != "ties" else rng.choice([1, 2])
+    n = rng.randint(1, maxlen) if profile != "tiny" else rng.randint(0, 8)
+    if rng.random() < 0.5:
+        n = min(n, max(8, maxlen // 4))
+    nid = [0]
+    neg = rng.random() < 0.15          # some cases use negative timestamps as well
+    inits, gens = [], []
+    for _ in range(nq):
+        g0 = QGen(rng, profile, span, neg, nid, None)
+        init = None
+        if rng.random() < 0.6:
+            init = [g0.fresh() for _ in range(rng.choice([0, 1, 2, 5, 12, 30]))]
+        inits.append(init)
+        gens.append(QGen(rng, profile, span, neg, nid, init))
+    run = Multi(inits)
+    ops = []
+    qi = 0
+    for i in range(n):
+        if nq > 1 and rng.random() < 0.6:          # otherwise stay on the same queue for a burst
+            qi = rng.randrange(nq)
+        g = gens[qi]
+        if profile == "fill_drain" and i >= n * 0.55:
+            for gg in gens:
+                gg.drain = True
+        op = g.next_op()
+        if op is None:
+            continue
+        res = run.apply(qi, op)
+        ops.append([qi, op])
+        g.note(op, res)
         if profile == "simulator" and res[0] == "evs":
             # like Simulator._process_event: a popped plug-in schedules its unplug
             for o in res[1]:
                 if o[3] == "Plugin" and rng.random() < 0.8:
-                    op2 = ["add", clock[0] + rng.randint(0, span), "Unplug", nid[0]]
+                    op2 = ["add", g.clock + rng.randint(0, span), "Unplug", nid[0]]
                     nid[0] += 1
-                    res2 = run.apply(op2)
-                    ops.append(op2)
-                    note(op2, res2)
-    impl = dict(results=run.results, final=run.final())
-    return init, ops, impl, profile
+                    res2 = run.apply(qi, op2)
+                    ops.append([qi, op2])
+                    g.note(op2, res2)
+    return inits, ops, run.finish(), profile
 
 
-def make_case(init, ops, impl, profile):
-    inp = dict(init=init, ops=ops)
-    nontrivial = sum(1 for o in ops if o[0] in ("get", "cur")) > 0 and len(ops) >= 3
-    return dict(input=inp, impl=impl, coq=case_coq(init, ops, impl), ambiguous=False,
-                kind=profile, sig=[init, ops], nontrivial=nontrivial)
+def make_case(inits, ops, impl, profile):
+    inp = dict(inits=inits, ops=ops)
+    nontrivial = sum(1 for _, o in ops if o[0] in ("get", "cur")) > 0 and len(ops) >= 3
+    return dict(input=inp, impl=impl, coq=case_coq(inits, ops, impl), ambiguous=False,
+                kind="%s/%dq" % (profile, len(inits)), sig=[inits, ops], nontrivial=nontrivial)
+
+
+def _q0(init, ops):
+    return [init], [[0, o] for o in ops]
 
 
 CORPUS = [
     # get_event on an empty queue, queries on an empty queue, JSON of an empty queue
-    (None, [["get"], ["len"], ["empty"], ["last"], ["json"], ["cur", 5], ["get"]]),
+    _q0(None, [["get"], ["len"], ["empty"], ["last"], ["json"], ["cur", 5], ["get"]]),
     # all three classes at one timestamp, inserted in the "wrong" order, drained one by one
-    ([[3, "Recompute", 0], [3, "Plugin", 1], [3, "Unplug", 2]], [["get"], ["get"], ["get"], ["get"]]),
+    _q0([[3, "Recompute", 0], [3, "Plugin", 1], [3, "Unplug", 2]], [["get"], ["get"], ["get"], ["get"]]),
     # boundary of get_current_events: ts == t is returned, ts == t+1 stays
-    ([[4, "Plugin", 0], [5, "Plugin", 1], [5, "Unplug", 2], [6, "Unplug", 3]],
-     [["cur", 3], ["cur", 5], ["len"], ["last"], ["cur", 5], ["cur", 6], ["empty"]]),
+    _q0([[4, "Plugin", 0], [5, "Plugin", 1], [5, "Unplug", 2], [6, "Unplug", 3]],
+        [["cur", 3], ["cur", 5], ["len"], ["last"], ["cur", 5], ["cur", 6], ["empty"]]),
     # insertion between retrievals + restore-then-continue
-    ([[2, "Plugin", 0], [2, "Plugin", 1], [7, "Recompute", 2]],
-     [["get"], ["add", 2, "Unplug", 3], ["json"], ["add", 1, "Recompute", 4], ["get"], ["get"], ["json"], ["get"], ["get"]]),
+    _q0([[2, "Plugin", 0], [2, "Plugin", 1], [7, "Recompute", 2]],
+        [["get"], ["add", 2, "Unplug", 3], ["json"], ["add", 1, "Recompute", 4], ["get"], ["get"], ["json"], ["get"], ["get"]]),
     # the same event object pushed twice
-    ([[1, "Plugin", 0]], [["add", 1, "Plugin", 0], ["add", 1, "Unplug", 1], ["len"], ["json"], ["get"], ["get"], ["get"]]),
+    _q0([[1, "Plugin", 0]], [["add", 1, "Plugin", 0], ["add", 1, "Unplug", 1], ["len"], ["json"], ["get"], ["get"], ["get"]]),
+    # the result of period 1 is still held while period 2 is retrieved
+    _q0([[1, "Unplug", 0], [1, "Plugin", 1], [2, "Recompute", 2], [6, "Plugin", 3]], [["cur", 1], ["cur", 2], ["cur", 6]]),
+    # two queues stepped side by side; a result of queue 0 is held across retrievals of queue 1
+    ([[[1, "Plugin", 0], [3, "Unplug", 1]], [[2, "Recompute", 2], [3, "Recompute", 3]]],
+     [[0, ["cur", 1]], [1, ["cur", 2]], [0, ["cur", 3]], [1, ["cur", 3]], [0, ["len"]], [1, ["empty"]]]),
+    # a caller that trashes the list it was given; the queue must not notice
+    _q0([[1, "Plugin", 0], [2, "Plugin", 1], [2, "Unplug", 2]], [["cur", 1], ["clobber"], ["len"], ["cur", 2], ["clobber"], ["len"], ["get"]]),
+    # three queues, one of them restored from JSON in between
+    ([None, [[5, "Plugin", 0]], None],
+     [[0, ["add", 1, "Recompute", 1]], [2, ["add", 1, "Unplug", 2]], [0, ["cur", 1]], [1, ["json"]], [2, ["cur", 1]],
+      [1, ["cur", 5]], [0, ["cur", 9]], [2, ["get"]]]),
 ]
 
 
 def gen_cases(rng, n, tier):
     cases = []
-    for init, ops in CORPUS:
-        cases.append(make_case(init, ops, run_impl(init, ops), "corpus"))
+    shrunk = False
+    for inits, ops in CORPUS:
+        impl = run_impl(inits, ops)
+        if not shrunk and monitor_trace(inits, ops, impl):
+            shrunk = True
+            inits, ops = _shrink(inits, ops)
+            impl = run_impl(inits, ops)
+        cases.append(make_case(inits, ops, impl, "corpus"))
     maxlen = MAXLEN[tier]
-    shrunk = any(monitor(c) for c in cases)
     while len(cases) < n:
         # thorough: most sequences stay moderate, a share goes up to 2000 ops
         ml = maxlen if (tier == "quick" or rng.random() < 0.04) else 300
-        init, ops, impl, profile = gen_one(rng, ml)
-        if not shrunk and monitor_trace(init, ops, impl):
+        inits, ops, impl, profile = gen_one(rng, ml)
+        if not shrunk and monitor_trace(inits, ops, impl):
             # the implementation violates C11 on this sequence: keep a minimised version of it
             # (it becomes the replay witness); costs nothing on a conforming tree
             shrunk = True
-            init, ops = _shrink(init, ops)
-            impl = run_impl(init, ops)
-        cases.append(make_case(init, ops, impl, profile))
+            inits, ops = _shrink(inits, ops)
+            impl = run_impl(inits, ops)
+        cases.append(make_case(inits, ops, impl, profile))
     return cases[:n]
 
 
 # ---------------------------------------------------------------------------------------------
 # monitor: C11 stated on the implementation's trace
 # ---------------------------------------------------------------------------------------------
-def monitor_trace(init, ops, impl):
-    pend = {}             # vid -> [ts, kind, multiplicity]
-    timestep = 0
+class _Shadow:
+    """the pending multiset of one queue, as the property text describes it"""
 
-    def add(t):
-        if t[2] in pend:
-            pend[t[2]][2] += 1
+    def __init__(self, init):
+        self.pend = {}            # vid -> [ts, kind, multiplicity]
+        self.timestep = 0
+        for t in (init or []):
+            self.add(t)
+
+    def add(self, t):
+        if t[2] in self.pend:
+            self.pend[t[2]][2] += 1
         else:
-            pend[t[2]] = [t[0], t[1], 1]
+            self.pend[t[2]] = [t[0], t[1], 1]
 
-    def key(vid):
-        return (pend[vid][0], RANK[pend[vid][1]])
+    def key(self, vid):
+        return (self.pend[vid][0], RANK[self.pend[vid][1]])
 
-    def take(o, what):
+    def take(self, o, what):
         """o = [timestamp attr, prec, vid, event_type] of a returned event"""
         vid = o[2]
-        if vid not in pend:
+        if vid not in self.pend:
             return "%s returned event %r which is not pending" % (what, o)
-        ts, kind, _ = pend[vid]
+        ts, kind, _ = self.pend[vid]
         if o[0] != ts or o[3] != kind:
             return "%s returned event %r but the pending event %d is (%d, %s)" % (what, o, vid, ts, kind)
         return None
 
-    def drop(vid):
-        pend[vid][2] -= 1
-        if pend[vid][2] == 0:
-            del pend[vid]
+    def drop(self, vid):
+        self.pend[vid][2] -= 1
+        if self.pend[vid][2] == 0:
+            del self.pend[vid]
 
-    for t in (init or []):
-        add(t)
-    results = impl["results"]
-    if len(results) != len(ops):
-        return "trace length mismatch"
-    for i, (op, r) in enumerate(zip(ops, results)):
+    def vids(self):
+        return sorted(v for v in self.pend for _ in range(self.pend[v][2]))
+
+    def check(self, op, r, where):
+        pend = self.pend
         k = op[0]
-        where = "op %d %s" % (i, json.dumps(op)[:60])
+        if k == "clobber":
+            return None
         if isinstance(r[-1], dict):
             return "%s: restored queue answered %r, the original %r" % (where, r[:-1], r[-1]["twin"])
         if r[0] == "exc" or r[0] == "value":
             return "%s: unexpected %r" % (where, r)
         if k == "add":
-            add(op[1:4])
+            self.add(op[1:4])
         elif k == "addmany":
             for t in op[1]:
-                add(t)
+                self.add(t)
         elif k == "get":
             if not pend:
                 if r[0] != "IndexError":
                     return "%s: get_event on an empty queue returned %r" % (where, r)
-                continue
+                return None
             if r[0] != "ev":
                 return "%s: get_event on a non-empty queue gave %r" % (where, r)
-            e = take(r[1:], where)
+            e = self.take(r[1:], where)
             if e:
                 return e
-            kk = key(r[3])
-            low = min(key(v) for v in pend)
+            kk = self.key(r[3])
+            low = min(self.key(v) for v in pend)
             if kk != low:
                 return "%s: returned key %r (ts, rank) although %r is pending" % (where, kk, low)
-            drop(r[3])
+            self.drop(r[3])
         elif k == "cur":
             t = op[1]
-            timestep = t
+            self.timestep = t
             if r[0] != "evs":
                 return "%s: gave %r" % (where, r)
             want = sorted(v for v in pend for _ in range(pend[v][2]) if pend[v][0] <= t)
             got = sorted(o[2] for o in r[1])
             for o in r[1]:
-                e = take(o, where)
+                e = self.take(o, where)
                 if e:
                     return e
             if got != want:
                 return "%s: returned vids %r, pending with ts<=%d are %r" % (where, got, t, want)
-            keys = [key(o[2]) for o in r[1]]
+            keys = [self.key(o[2]) for o in r[1]]
             if any(a > b for a, b in zip(keys, keys[1:])):
                 return "%s: returned keys not in (timestamp, unplug<plugin<recompute) order: %r" % (where, keys)
             for o in r[1]:
-                drop(o[2])
+                self.drop(o[2])
         elif k == "len":
             n = sum(p[2] for p in pend.values())
             if r != ["len", n]:
@@ -496,31 +651,56 @@ def monitor_trace(init, ops, impl):
         elif k == "json":
             if r[0] != "json":
                 return "%s: gave %r" % (where, r)
-            if r[1] != timestep:
-                return "%s: restored _timestep %r, original %r" % (where, r[1], timestep)
+            if r[1] != self.timestep:
+                return "%s: restored _timestep %r, original %r" % (where, r[1], self.timestep)
             if r[2] != r[3]:
                 return "%s: restored array differs from the serialised one" % where
             got = sorted(a[3] for a in r[2])
-            want = sorted(v for v in pend for _ in range(pend[v][2]))
-            if got != want:
-                return "%s: restored pending set %r, expected %r" % (where, got, want)
+            if got != self.vids():
+                return "%s: restored pending set %r, expected %r" % (where, got, self.vids())
             for a in r[2]:
                 if a[3] not in pend or a[0] != pend[a[3]][0] or a[1] != a[0] or a[4] != pend[a[3]][1]:
                     return "%s: restored entry %r does not match pending event" % (where, a)
-    fin = impl["final"]
-    got = sorted(a[3] for a in fin["array"])
-    want = sorted(v for v in pend for _ in range(pend[v][2]))
-    if got != want:
-        return "final pending set %r, expected %r" % (got, want)
+        return None
+
+
+def monitor_trace(inits, ops, impl):
+    shadows = [_Shadow(i) for i in inits]
+    results = impl["results"]
+    if len(results) != len(ops):
+        return "trace length mismatch"
+    changes = sorted(impl.get("changes", []), key=lambda c: c["after_op"])
+    for i, ((qi, op), r) in enumerate(zip(ops, results)):
+        where = "op %d queue %d %s" % (i, qi, json.dumps(op)[:60])
+        e = shadows[qi].check(op, r, where)
+        if e:
+            return e
+        for c in changes:
+            if c["after_op"] == i:
+                qo, oo = ops[c["op"]] if c["op"] < len(ops) else (c["queue"], ["?"])
+                extra = ""
+                if c["same_object_as_result_of_ops"]:
+                    extra = " (it is the same list object as the result of op(s) %r)" % c["same_object_as_result_of_ops"]
+                return ("the list returned by op %d (queue %d %s) held %r when it was returned, but after %s it holds %r%s"
+                        % (c["op"], qo, json.dumps(oo), [o[2] for o in c["recorded"]], where,
+                           [o[2] if isinstance(o, list) and len(o) > 2 else o for o in c["now"]] if isinstance(c["now"], list) else c["now"],
+                           extra))
+    for c in changes:
+        return "the list returned by op %d changed by the end of the sequence: %r -> %r" % (c["op"], c["recorded"], c["now"])
+    for qi, (sh, fin) in enumerate(zip(shadows, impl["finals"])):
+        got = sorted(a[3] for a in fin["array"])
+        if got != sh.vids():
+            return "queue %d: final pending set %r, expected %r (after the caller mutated the lists it had been handed)" % (
+                qi, got, sh.vids())
     return None
 
 
 def monitor(case):
     inp = case["input"]
-    return monitor_trace(inp["init"], inp["ops"], case["impl"])
+    return monitor_trace(inp["inits"], inp["ops"], case["impl"])
 
 
-def _shrink(init, ops):
+def _shrink(inits, ops):
     """greedy delta-debugging over the op list / initial events while the monitor still fails"""
     def fails(i, o):
         try:
@@ -536,36 +716,42 @@ def _shrink(init, ops):
             j = 0
             while j < len(ops):
                 cand = ops[:j] + ops[j + chunk:]
-                if fails(init, cand):
+                if fails(inits, cand):
                     ops, changed = cand, True
                 else:
                     j += chunk
             chunk //= 2
-        if init:
+        for qi in range(len(inits)):
             j = 0
-            while j < len(init):
-                cand = init[:j] + init[j + 1:]
+            while inits[qi] and j < len(inits[qi]):
+                cand = [list(x) if x is not None else None for x in inits]
+                cand[qi] = inits[qi][:j] + inits[qi][j + 1:]
                 if fails(cand, ops):
-                    init, changed = cand, True
+                    inits, changed = cand, True
                 else:
                     j += 1
-    return init, ops
+    # drop trailing queues that nothing addresses any more
+    while len(inits) > 1 and all(qi != len(inits) - 1 for qi, _ in ops) and fails(inits[:-1], ops):
+        inits = inits[:-1]
+    return inits, ops
 
 
 def search(rng, budget_s, broken):
     t0 = time.time()
     while time.time() - t0 < budget_s:
-        init, ops, impl, profile = gen_one(rng, 60)
-        why = monitor_trace(init, ops, impl)
+        inits, ops, impl, profile = gen_one(rng, 60)
+        why = monitor_trace(inits, ops, impl)
         if why:
-            init, ops = _shrink(init, ops)
-            impl = run_impl(init, ops)
-            return dict(case=dict(init=init, ops=ops), impl=impl, why=monitor_trace(init, ops, impl) or why)
+            inits, ops = _shrink(inits, ops)
+            impl = run_impl(inits, ops)
+            return dict(case=dict(inits=inits, ops=ops), impl=impl, why=monitor_trace(inits, ops, impl) or why)
     return None
 
 
 def replay(w):
     inp = w["case"]
-    init = [list(t) for t in inp["init"]] if inp.get("init") is not None else None
-    ops = inp["ops"]
-    return monitor_trace(init, ops, run_impl(init, ops))
+    if "inits" not in inp:                      # replay files written before scenarios had several queues
+        inp = dict(inits=[inp.get("init")], ops=[[0, o] for o in inp["ops"]])
+    inits = [[list(t) for t in i] if i is not None else None for i in inp["inits"]]
+    ops = [[qi, op] for qi, op in inp["ops"]]
+    return monitor_trace(inits, ops, run_impl(inits, ops))
